@@ -1,3 +1,4 @@
+import LimeModel.Generated
 import LimeModel.ServerHs
 /-!
 # M5: the end of a session seen from the client that asks for it
@@ -83,6 +84,8 @@ def allLabels : List Lbl :=
 /-- no step is enabled -/
 def stuck (fixed : Bool) (s : FS) : Bool := allLabels.all fun l => (step fixed s l).isNone
 
-def repaired : Bool := true
+/-- which variant the code is, read from the source on this run: `receiveSession` takes a pending
+session envelope in the terminal states -/
+def repaired : Bool := Generated.finishDrainsTerminalState
 
 end LimeModel.Finish
